@@ -40,10 +40,10 @@ func runC13(c *Ctx) {
 		upd := c.funcObj("github.com/btcsuite/btcwallet/walletdb", "Update")
 		enc := c.funcObj("banman", "encodeIPNet")
 		bytesM := c.method("bytes", "Buffer", "Bytes")
-		users := map[string][]*types.Func{
-			"(*banman.banStore).BanIPNet":   {c.funcObj("banman", "addBannedIPNet")},
-			"(*banman.banStore).Status":     {c.funcObj("banman", "fetchStatus"), c.funcObj("banman", "removeBannedIPNet")},
-			"(*banman.banStore).UnbanIPNet": {c.funcObj("banman", "removeBannedIPNet")},
+		users := map[string]bool{
+			"(*banman.banStore).BanIPNet":   true,
+			"(*banman.banStore).Status":     true,
+			"(*banman.banStore).UnbanIPNet": true,
 		}
 		var names []string
 		for n := range users {
@@ -105,15 +105,18 @@ func runC13(c *Ctx) {
 					okv = false
 					detail += "encodeIPNet is not applied to the method's ipNet parameter; "
 				}
-				for _, u := range users[name] {
-					for _, call := range find(cl, callTo(u)) {
-						users2 = append(users2, call)
-						k := ir.ValueAt(ir.CallOf(call).Args[2], call.Block())
-						kc, isCall := k.(*ssa.Call)
-						if !isCall || !callTo(bytesM)(kc) || kc.Call.Args[0] != buf {
-							okv = false
-							detail += describeCall(call) + " at " + c.at(call) + " is keyed by something other than the encodeIPNet buffer; "
-						}
+				// every bucket operation of the transaction (its own and those of
+				// the helpers it calls) is keyed by Bytes() of that buffer
+				for _, op := range c.banIndexOps(cl) {
+					users2 = append(users2, op.site)
+					k := op.key
+					if k != nil {
+						k = ir.ValueAt(k, op.site.Block())
+					}
+					kc, isCall := ir.Strip(k).(*ssa.Call)
+					if k == nil || !isCall || !callTo(bytesM)(kc) || ir.Strip(kc.Call.Args[0]) != buf {
+						okv = false
+						detail += op.kind + " at " + c.at(op.in) + " is keyed by something other than the encodeIPNet buffer; "
 					}
 				}
 				if len(users2) == 0 {
@@ -127,33 +130,30 @@ func runC13(c *Ctx) {
 			}
 			c.verdict(okv, construct, c.P.Pos(fn.Pos()), "key derives from encodeIPNet of the ipNet argument", detail, c.ats(append(encs, users2...))...)
 		}
-		// both indexes together
-		put := c.method("github.com/btcsuite/btcwallet/walletdb", "ReadWriteBucket", "Put")
-		del := c.method("github.com/btcsuite/btcwallet/walletdb", "ReadWriteBucket", "Delete")
-		for _, spec := range []struct {
-			fn string
-			m  *types.Func
-		}{{"banman.addBannedIPNet", put}, {"banman.removeBannedIPNet", del}} {
+		// both indexes together: the transaction of BanIPNet puts, the ones of
+		// UnbanIPNet and (for an expired record) Status delete, one record in
+		// each of the two nested buckets under the same key, the second only
+		// after the first succeeded
+		for _, spec := range []struct{ fn, kind string }{{"(*banman.banStore).BanIPNet", "Put"}, {"(*banman.banStore).UnbanIPNet", "Delete"}, {"(*banman.banStore).Status", "Delete"}} {
 			fn := c.fn(spec.fn)
-			var onBan, onReason []ssa.Instruction
-			for _, in := range find(fn, callTo(spec.m)) {
-				cc := ir.CallOf(in)
-				if cc.Value == ssa.Value(fn.Params[0]) {
-					onBan = append(onBan, in)
-				}
-				if cc.Value == ssa.Value(fn.Params[1]) {
-					onReason = append(onReason, in)
-				}
+			cls := closuresPassedTo(fn, upd)
+			construct := spec.fn + " | both indexes " + spec.kind + " under the same key"
+			if len(cls) != 1 {
+				c.fail(construct, c.P.Pos(fn.Pos()), "transaction closure not found")
+				continue
 			}
-			okv := len(onBan) == 1 && len(onReason) == 1
+			ops := opsOfKind(c.banIndexOps(cls[0]), spec.kind)
+			okv := len(ops) == 2 && ops[0].bucket != nil && ops[1].bucket != nil && ops[0].bucket != ops[1].bucket && sameKey(ops[0].key, ops[1].key)
+			c.verdict(okv, construct, c.P.Pos(fn.Pos()), "expiry index and reason index updated with one key", fmt.Sprintf("the expiry index and the reason index are not both updated (%s) under the same key (%d operation(s) found)", spec.kind, len(ops)), c.ats(opIns(ops))...)
 			if okv {
-				// same key on both
-				okv = ir.CallOf(onBan[0]).Args[0] == ir.CallOf(onReason[0]).Args[0]
-			}
-			c.verdict(okv, spec.fn+" | both indexes updated under the same key", c.P.Pos(fn.Pos()), "expiry index and reason index updated with one key", "the expiry index and the reason index are not both updated under the same key", c.ats(append(onBan, onReason...))...)
-			if okv {
-				g := errNil("banIndex."+spec.m.Name(), onBan, 0)
-				c.nilReturnsGuarded(fn, g, 1)
+				host := ops[0].in.Parent()
+				if ops[1].in.Parent() == host {
+					first, second := ops[0], ops[1]
+					if first.in.Block() != second.in.Block() && !ir.Reach([]*ssa.BasicBlock{first.in.Block()}, nil)[second.in.Block()] || first.in.Block() == second.in.Block() && ir.IndexIn(first.in) > ir.IndexIn(second.in) {
+						first, second = second, first
+					}
+					c.guarded(host, errNil("first index "+spec.kind, []ssa.Instruction{first.in}, 0), 1, "second index "+spec.kind, []ssa.Instruction{second.in}, 1, gDominate)
+				}
 			}
 		}
 		// Status reports Banned only for an unexpired record
@@ -172,8 +172,8 @@ func runC13(c *Ctx) {
 				}
 			})
 			c.guarded(cl[0], g, 1, "banStatus = status", sets, 1, gDominate)
-			rm := c.funcObj("banman", "removeBannedIPNet")
-			c.mustFollow(cl[0], "record expired", c.failEdges(g), callTo(rm), "removeBannedIPNet (lazy expiry)", nil, 1)
+			dels := opSites(opsOfKind(c.banIndexOps(cl[0]), "Delete"))
+			c.mustFollow(cl[0], "record expired", c.failEdges(g), oneOf(dels), "removal of the expired record (lazy expiry)", nil, 1)
 		}
 	})
 
@@ -252,12 +252,17 @@ func runC13(c *Ctx) {
 		c.nilReturnsGuarded(fn, errNil("write of the mask", writes[2:], 1), 1)
 	})
 
-	c.rule("C13.T4", "writer/reader agreement of the ban record: addBannedIPNet stores the expiry as 8 bytes of Unix seconds of time.Now().Add(duration) in the expiry bucket (its first bucket parameter) and the reason as one byte in the reason bucket (second parameter), both under the given key; fetchStatus reads the expiry from its first and the reason from its second bucket parameter under its key, decodes with the same byte order variable into time.Unix(seconds, 0), and reports Banned only when the expiry record exists", func() {
-		wdb := "github.com/btcsuite/btcwallet/walletdb"
-		put := c.method(wdb, "ReadWriteBucket", "Put")
-		get := c.method(wdb, "ReadBucket", "Get")
-		add := c.fn("banman.addBannedIPNet")
-		fs := c.fn("banman.fetchStatus")
+	c.rule("C13.T4", "writer/reader agreement of the ban record: the transaction of BanIPNet stores the expiry as 8 bytes of Unix seconds of time.Now().Add(duration) in one nested bucket and the reason as one byte in the other, both under the record key; the transaction of Status reads the expiry from the bucket the writer put it in and the reason from the other one, under its key, decodes with the same byte order variable into time.Unix(seconds, 0), and reports Banned only when the expiry record exists (the operations may sit in the helpers addBannedIPNet / fetchStatus or in the transaction closures themselves)", func() {
+		upd := c.funcObj(pWalletdb, "Update")
+		txOf := func(name string) *ssa.Function {
+			fn := c.fn(name)
+			cls := closuresPassedTo(fn, upd)
+			if len(cls) != 1 {
+				panic(anchorErr{"the transaction closure of " + name})
+			}
+			return cls[0]
+		}
+		wcl, rcl := txOf("(*banman.banStore).BanIPNet"), txOf("(*banman.banStore).Status")
 		var bad []string
 		check := func(ok bool, msg string) {
 			if !ok {
@@ -290,102 +295,131 @@ func runC13(c *Ctx) {
 				return cal.Func != nil && cal.Func.Name() == name && cal.Func.Pkg() != nil && cal.Func.Pkg().Path() == "encoding/binary"
 			})
 		}
-		// writer
-		puts := find(add, callTo(put))
-		check(len(puts) == 2, fmt.Sprintf("%d Puts in addBannedIPNet, 2 tabled", len(puts)))
-		pu := named(add, "PutUint64")
-		check(len(pu) == 1, "expiry is not encoded with one PutUint64")
-		var wOrder *ssa.Global
-		if len(puts) == 2 && len(pu) == 1 {
-			wOrder = orderOf(pu[0])
-			unix := c.method("time", "Time", "Unix")
-			addM := c.method("time", "Time", "Add")
-			now := c.funcObj("time", "Now")
-			_, puArgs := recvAndArgs(pu[0])
-			secs := puArgs[1]
-			okSecs := ir.DerivesFrom(secs, func(v ssa.Value) bool {
-				call, ok := v.(*ssa.Call)
-				if !ok || !callTo(unix)(call) {
-					return false
+		isInput := func(v ssa.Value, ok func(types.Type) bool) bool {
+			return ir.InfluencedBy(v, func(x ssa.Value) bool {
+				switch y := x.(type) {
+				case *ssa.Parameter:
+					return ok(y.Type())
+				case *ssa.FreeVar:
+					t := y.Type()
+					if p, isP := t.(*types.Pointer); isP {
+						t = p.Elem()
+					}
+					return ok(t)
 				}
-				recv := call.Call.Args[0]
-				return ir.InfluencedBy(recv, func(x ssa.Value) bool { return valIsCallTo(addM)(x) }) && ir.InfluencedBy(recv, valIsCallTo(now)) && ir.InfluencedBy(recv, func(x ssa.Value) bool { return x == ssa.Value(add.Params[4]) })
+				return false
 			})
-			check(okSecs, "the stored expiry is not time.Now().Add(duration).Unix()")
-			for i, x := range puts {
-				cc := ir.CallOf(x)
-				check(cc.Value == ssa.Value(add.Params[i]), fmt.Sprintf("Put #%d of addBannedIPNet does not go to its bucket parameter #%d", i+1, i))
-				check(cc.Args[0] == ssa.Value(add.Params[2]), fmt.Sprintf("Put #%d of addBannedIPNet is not keyed by ipNetKey", i+1))
-			}
-			// value of Put #1: the 8-byte buffer PutUint64 filled
-			buf := puArgs[0]
-			b0, _ := buf.(*ssa.Slice)
-			v0, _ := ir.CallOf(puts[0]).Args[1].(*ssa.Slice)
-			check(b0 != nil && v0 != nil && b0.X == v0.X, "the expiry bucket does not receive the buffer the expiry was encoded into")
-			if b0 != nil {
-				if pt, ok := b0.X.Type().Underlying().(*types.Pointer); ok {
-					arr, isArr := pt.Elem().Underlying().(*types.Array)
-					check(isArr && arr.Len() == 8, "the expiry buffer is not 8 bytes")
+		}
+		// writer
+		wops := opsOfKind(c.banIndexOps(wcl), "Put")
+		check(len(wops) == 2, fmt.Sprintf("%d Puts in the transaction of BanIPNet, 2 tabled", len(wops)))
+		var expBucket, reasonBucket *ssa.Global
+		var wOrder *ssa.Global
+		if len(wops) == 2 {
+			wf := wops[0].in.Parent()
+			pu := named(wf, "PutUint64")
+			check(len(pu) == 1, "expiry is not encoded with one PutUint64")
+			if len(pu) == 1 {
+				wOrder = orderOf(pu[0])
+				unix := c.method("time", "Time", "Unix")
+				addM := c.method("time", "Time", "Add")
+				now := c.funcObj("time", "Now")
+				_, puArgs := recvAndArgs(pu[0])
+				secs := puArgs[1]
+				okSecs := ir.DerivesFrom(secs, func(v ssa.Value) bool {
+					call, ok := v.(*ssa.Call)
+					if !ok || !callTo(unix)(call) {
+						return false
+					}
+					recv := call.Call.Args[0]
+					return ir.InfluencedBy(recv, func(x ssa.Value) bool { return valIsCallTo(addM)(x) }) && ir.InfluencedBy(recv, valIsCallTo(now)) &&
+						isInput(recv, func(t types.Type) bool { return namedTypeIs(t, "time", "Duration") })
+				})
+				check(okSecs, "the stored expiry is not time.Now().Add(duration).Unix()")
+				// which Put carries the 8-byte buffer PutUint64 filled
+				buf := puArgs[0]
+				b0, _ := buf.(*ssa.Slice)
+				var expOp, reasonOp *idxOp
+				for i := range wops {
+					v0, _ := wops[i].val.(*ssa.Slice)
+					if b0 != nil && v0 != nil && b0.X == v0.X {
+						expOp = &wops[i]
+					} else {
+						reasonOp = &wops[i]
+					}
+				}
+				check(expOp != nil && reasonOp != nil, "no bucket receives the buffer the expiry was encoded into")
+				if b0 != nil {
+					if pt, ok := b0.X.Type().Underlying().(*types.Pointer); ok {
+						arr, isArr := pt.Elem().Underlying().(*types.Array)
+						check(isArr && arr.Len() == 8, "the expiry buffer is not 8 bytes")
+					}
+				}
+				if expOp != nil && reasonOp != nil {
+					expBucket, reasonBucket = expOp.bucket, reasonOp.bucket
+					check(expBucket != nil && reasonBucket != nil && expBucket != reasonBucket, "expiry and reason are not put into two different nested buckets")
+					check(sameKey(expOp.key, reasonOp.key), "the two Puts are not keyed by the same record key")
+					okReason := isInput(reasonOp.val, func(t types.Type) bool { return namedTypeIs(t, ir.ModPath+"/banman", "Reason") })
+					check(okReason, "the reason bucket does not receive byte(reason)")
 				}
 			}
-			// value of Put #2: one byte = byte(reason)
-			okReason := ir.DerivesFrom(ir.CallOf(puts[1]).Args[1], func(v ssa.Value) bool { return v == ssa.Value(add.Params[3]) })
-			check(okReason, "the reason bucket does not receive byte(reason)")
 		}
 		// reader
-		gets := find(fs, callTo(get))
-		check(len(gets) == 2, fmt.Sprintf("%d Gets in fetchStatus, 2 tabled", len(gets)))
-		ru := named(fs, "Uint64")
-		check(len(ru) == 1, "expiry is not decoded with one Uint64")
-		if len(gets) == 2 && len(ru) == 1 {
-			check(wOrder != nil && orderOf(ru[0]) == wOrder, "writer and reader do not use the same byte order variable")
-			var expGet, reasonGet ssa.Instruction
-			for _, x := range gets {
-				cc := ir.CallOf(x)
-				check(cc.Args[0] == ssa.Value(fs.Params[2]), "a Get of fetchStatus is not keyed by ipNetKey")
-				switch cc.Value {
-				case ssa.Value(fs.Params[0]):
-					expGet = x
-				case ssa.Value(fs.Params[1]):
-					reasonGet = x
-				}
-			}
-			check(expGet != nil && reasonGet != nil, "fetchStatus does not read one record from each bucket parameter")
-			if expGet != nil && reasonGet != nil {
+		rops := opsOfKind(c.banIndexOps(rcl), "Get")
+		check(len(rops) == 2, fmt.Sprintf("%d Gets in the transaction of Status, 2 tabled", len(rops)))
+		if len(rops) == 2 {
+			rf := rops[0].in.Parent()
+			ru := named(rf, "Uint64")
+			check(len(ru) == 1, "expiry is not decoded with one Uint64")
+			if len(ru) == 1 {
+				check(wOrder != nil && orderOf(ru[0]) == wOrder, "writer and reader do not use the same byte order variable")
 				_, ruArgs := recvAndArgs(ru[0])
-				check(ruArgs[0] == expGet.(ssa.Value), "the decoded expiry is not the value read from the expiry bucket")
-				tu := c.funcObj("time", "Unix")
-				okUnix := false
-				for _, x := range find(fs, callTo(tu)) {
-					a := ir.CallOf(x).Args
-					k, isC := ir.ConstInt(a[1])
-					okUnix = ir.DerivesFrom(a[0], func(v ssa.Value) bool { return v == ru[0].(ssa.Value) }) && isC && k == 0
-				}
-				check(okUnix, "Expiration is not time.Unix(decoded seconds, 0)")
-				// Reason from reasonGet[0]
-				okR := false
-				for _, st := range find(fs, storeToField(c.field("banman", "Status", "Reason"))) {
-					okR = ir.DerivesFrom(st.(*ssa.Store).Val, func(v ssa.Value) bool { return v == reasonGet.(ssa.Value) })
-				}
-				check(okR, "Status.Reason is not read from the reason bucket")
-				// Banned = true only behind expiry record != nil
-				var trueStores []ssa.Instruction
-				for _, st := range find(fs, storeToField(c.field("banman", "Status", "Banned"))) {
-					if k, isC := ir.ConstBool(st.(*ssa.Store).Val); isC && k {
-						trueStores = append(trueStores, st)
+				var expGet, reasonGet *idxOp
+				for i := range rops {
+					if ruArgs[0] == rops[i].in.(ssa.Value) {
+						expGet = &rops[i]
+					} else {
+						reasonGet = &rops[i]
 					}
 				}
-				var nilCmp []ssa.Instruction
-				ir.Instrs(fs, func(in ssa.Instruction) {
-					if b, ok := in.(*ssa.BinOp); ok && (b.Op == token.EQL || b.Op == token.NEQ) && (b.X == expGet.(ssa.Value) || b.Y == expGet.(ssa.Value)) {
-						nilCmp = append(nilCmp, in)
+				check(expGet != nil && reasonGet != nil, "the decoded expiry is not a value read from a bucket")
+				if expGet != nil && reasonGet != nil {
+					check(expBucket != nil && expGet.bucket == expBucket, "the expiry is not read from the bucket the writer puts it in")
+					check(reasonBucket != nil && reasonGet.bucket == reasonBucket, "the reason is not read from the bucket the writer puts it in")
+					check(sameKey(expGet.key, reasonGet.key), "the two Gets are not keyed by the same record key")
+					tu := c.funcObj("time", "Unix")
+					okUnix := false
+					for _, x := range find(rf, callTo(tu)) {
+						a := ir.CallOf(x).Args
+						k, isC := ir.ConstInt(a[1])
+						okUnix = ir.DerivesFrom(a[0], func(v ssa.Value) bool { return v == ru[0].(ssa.Value) }) && isC && k == 0
 					}
-				})
-				c.guarded(fs, equalIs("expiry record vs nil", nilCmp, false), 1, "Status.Banned = true", trueStores, 1, gDominate)
+					check(okUnix, "Expiration is not time.Unix(decoded seconds, 0)")
+					okR := false
+					for _, st := range find(rf, storeToField(c.field("banman", "Status", "Reason"))) {
+						okR = ir.DerivesFrom(st.(*ssa.Store).Val, func(v ssa.Value) bool { return v == reasonGet.in.(ssa.Value) })
+					}
+					check(okR, "Status.Reason is not read from the reason bucket")
+					// Banned = true only behind expiry record != nil
+					var trueStores []ssa.Instruction
+					for _, st := range find(rf, storeToField(c.field("banman", "Status", "Banned"))) {
+						if k, isC := ir.ConstBool(st.(*ssa.Store).Val); isC && k {
+							trueStores = append(trueStores, st)
+						}
+					}
+					var nilCmp []ssa.Instruction
+					ev := expGet.in.(ssa.Value)
+					ir.Instrs(rf, func(in ssa.Instruction) {
+						if b, ok := in.(*ssa.BinOp); ok && (b.Op == token.EQL || b.Op == token.NEQ) && (b.X == ev || b.Y == ev) {
+							nilCmp = append(nilCmp, in)
+						}
+					})
+					c.guarded(rf, equalIs("expiry record vs nil", nilCmp, false), 1, "Status.Banned = true", trueStores, 1, gDominate)
+				}
 			}
 		}
 		sort.Strings(bad)
-		c.verdict(len(bad) == 0, "banman.addBannedIPNet / banman.fetchStatus | record codec agreement", c.P.Pos(add.Pos()), "8-byte Unix seconds + 1-byte reason, same buckets, same key, same byte order", join(bad))
+		c.verdict(len(bad) == 0, "banman ban record | record codec agreement", c.P.Pos(wcl.Pos()), "8-byte Unix seconds + 1-byte reason, same buckets, same key, same byte order", join(bad))
 	})
 
 	c.rule("C13.T2", "one address, one record: the parser that builds the ban key's IP network and the encoder that serialises it split IPv4 from IPv6 with the same predicates (sibling agreement: an IPv4-mapped IPv6 spelling must be treated as the 4-byte address by both, otherwise mask and address lengths disagree and the spelling gets its own record); the parsed network is ip.Mask(mask) of the default single-address mask", func() {
@@ -479,14 +513,16 @@ func runC13(c *Ctx) {
 			okA = ir.InfluencedBy(argsOf(b)[0], isParam(fn, 2))
 		}
 		c.verdict(okA, c.nm(fn)+" | ban status looked up for the peer being added", c.P.Pos(fn.Pos()), "IsBanned argument derives from sp", "IsBanned is not asked about the peer being added")
-		// positive returns are guarded too
-		var retTrue []ssa.Instruction
-		for _, in := range find(fn, isExit) {
-			if b, isC := ir.ConstBool(ir.RetVal(in.(*ssa.Return), 0)); !isC || b {
-				retTrue = append(retTrue, in)
+		// positive returns are guarded too (when the function still reports one)
+		if fn.Signature.Results().Len() > 0 {
+			var retTrue []ssa.Instruction
+			for _, in := range find(fn, isExit) {
+				if b, isC := ir.ConstBool(ir.RetVal(in.(*ssa.Return), 0)); !isC || b {
+					retTrue = append(retTrue, in)
+				}
 			}
+			c.guarded(fn, g, 1, "return true", retTrue, 1, gDominate)
 		}
-		c.guarded(fn, g, 1, "return true", retTrue, 1, gDominate)
 
 		// outboundPeerConnected
 		fo := c.fn("(*neutrino.ChainService).outboundPeerConnected")
@@ -677,37 +713,73 @@ const banRecordedDoc = "a ban or unban that reports success was carried out: ins
 
 // banRecorded: see banRecordedDoc.
 func (c *Ctx) banRecorded() {
-	upd := c.funcObj("github.com/btcsuite/btcwallet/walletdb", "Update")
+	upd := c.funcObj(pWalletdb, "Update")
 	for _, spec := range []struct {
-		name string
-		op   *types.Func
+		name, helper, kind string
 	}{
-		{"(*banman.banStore).BanIPNet", c.funcObj("banman", "addBannedIPNet")},
-		{"(*banman.banStore).UnbanIPNet", c.funcObj("banman", "removeBannedIPNet")},
+		{"(*banman.banStore).BanIPNet", "addBannedIPNet", "Put"},
+		{"(*banman.banStore).UnbanIPNet", "removeBannedIPNet", "Delete"},
 	} {
 		fn := c.fn(spec.name)
 		cls := closuresPassedTo(fn, upd)
-		construct := spec.name + " | success only through " + spec.op.Name()
+		construct := spec.name + " | success only through " + spec.helper
 		if len(cls) != 1 {
 			c.fail(construct, c.P.Pos(fn.Pos()), fmt.Sprintf("expected one transaction closure, found %d", len(cls)))
 			continue
 		}
 		cl := cls[0]
+		ops := opsOfKind(c.banIndexOps(cl), spec.kind)
+		// the instructions of the closure whose result is the index operation's
+		isOpResult := func(v ssa.Value) bool {
+			return ir.DerivesFrom(v, func(x ssa.Value) bool {
+				in, ok := x.(ssa.Instruction)
+				if !ok {
+					return false
+				}
+				for _, o := range ops {
+					if o.site == in {
+						return true
+					}
+				}
+				return false
+			})
+		}
 		var bad, sites []string
 		n := 0
 		for _, r := range find(cl, isExit) {
 			v := ir.RetVal(r.(*ssa.Return), 0)
 			sites = append(sites, c.at(r))
 			switch {
-			case valIsCallTo(spec.op)(v):
+			case !ir.IsNil(v) && isOpResult(v):
 				n++
 			case !ir.IsNil(v) && (knownNonNilError(v) || nonNilAt(v, r.Block())):
 			default:
-				bad = append(bad, "return at "+c.at(r)+" can report success without "+spec.op.Name())
+				// a plain nil is fine once every index operation was passed
+				passed := len(ops) > 0
+				for _, o := range ops {
+					reached := false
+					ir.WalkCtx(cl.Blocks[0], 0, nil, nil, func(x ssa.Instruction) bool {
+						if x == o.site {
+							return false
+						}
+						if x == r {
+							reached = true
+						}
+						return true
+					})
+					if reached {
+						passed = false
+					}
+				}
+				if passed && ir.IsNil(v) {
+					n++
+				} else {
+					bad = append(bad, "return at "+c.at(r)+" can report success without the index "+spec.kind)
+				}
 			}
 		}
 		sort.Strings(bad)
-		c.verdict(len(bad) == 0 && n >= 1, construct, c.P.Pos(fn.Pos()), fmt.Sprintf("%d return(s): the index operation's result or a non-nil error", len(sites)), join(bad), sites...)
+		c.verdict(len(bad) == 0 && n >= 1 && len(ops) == 2, construct, c.P.Pos(fn.Pos()), fmt.Sprintf("%d return(s): the index operation's result or a non-nil error", len(sites)), join(bad)+fmt.Sprintf(" (%d index %s operation(s))", len(ops), spec.kind), sites...)
 		// the method returns the transaction's result
 		okRet := true
 		for _, r := range find(fn, isExit) {
@@ -717,19 +789,18 @@ func (c *Ctx) banRecorded() {
 			}
 		}
 		c.verdict(okRet, spec.name+" | returns the transaction's error", c.P.Pos(fn.Pos()), "return walletdb.Update(..)", spec.name+" does not return the transaction's result")
-	}
-	add := c.fn("banman.addBannedIPNet")
-	put := c.method("github.com/btcsuite/btcwallet/walletdb", "ReadWriteBucket", "Put")
-	puts := find(add, callTo(put))
-	var bad []string
-	for _, r := range find(add, isExit) {
-		v := ir.RetVal(r.(*ssa.Return), 0)
-		if ir.IsNil(v) || !(valIsCallTo(put)(v) || ir.DerivesFrom(v, valIsCallTo(put))) {
-			bad = append(bad, "return at "+c.at(r)+" is not the result of a Put")
+		// inside a helper: nil only as the result of the operations
+		if h := c.P.Func("banman." + spec.helper); h != nil && spec.kind == "Put" {
+			c.R.Funcs[c.nm(h)] = true
+			put := c.method(pWalletdb, "ReadWriteBucket", "Put")
+			var hbad []string
+			for _, r := range find(h, isExit) {
+				v := ir.RetVal(r.(*ssa.Return), 0)
+				if ir.IsNil(v) || !(valIsCallTo(put)(v) || ir.DerivesFrom(v, valIsCallTo(put))) {
+					hbad = append(hbad, "return at "+c.at(r)+" is not the result of a Put")
+				}
+			}
+			c.verdict(len(hbad) == 0, "banman."+spec.helper+" | nil only after both Puts", c.P.Pos(h.Pos()), "returns a Put error or the last Put's result", join(hbad))
 		}
-	}
-	c.verdict(len(bad) == 0 && len(puts) == 2, "banman.addBannedIPNet | nil only after both Puts", c.P.Pos(add.Pos()), "returns a Put error or the last Put's result", join(bad)+fmt.Sprintf(" (%d Puts)", len(puts)))
-	if len(puts) == 2 {
-		c.guarded(add, errNil("banIndex.Put", puts[:1], 0), 1, "reasonIndex.Put", puts[1:], 1, gDominate)
 	}
 }
